@@ -44,17 +44,17 @@ func c03Refine(raw *smt.Term) []*smt.Term {
 // C03: URL attributes carry only allowed schemes.
 func runC03(c *Ctx, ev *Evidence) ([]Violation, error) {
 	timeout, grace := unitTimeouts(c)
-	entries := 1
+	entries, maxAttrs := 1, 1
 	if c.Tier == "thorough" {
 		entries = 2
 	}
 	ev.Func("(*Policy).sanitizeAttrs [URL phase]", "(*Policy).validURL", "linkable", "(*Policy).RequireParseableURLs")
-	ev.Bound("positions", "all 17 (element, attribute) positions of the statement, one attribute per tag")
+	ev.Bound("positions", "all 17 (element, attribute) positions of the statement; one or two attributes per tag, each the URL attribute (duplicates included) or an unrelated allowed attribute")
 	ev.Bound("scheme_table", fmt.Sprintf("%d symbolic scheme(s), each unconditional or with 1-2 opaque custom checks; 0-1 opaque scheme pattern; relative URLs on/off symbolic; src rewriter absent or opaque", entries))
 	ev.Assume("A3: url.Parse / URL.String are uninterpreted functions of the string (ok, scheme, host, normal form) that a WHATWG parser agrees with on strings free of white space and control characters",
 		"data: URIs with embedded white space (deliberately tolerated, base64 line breaks) are only required to pass the scheme rule; the white-space rule is checked for every other value",
 		"RequireParseableURLs is on (every URL option implies it)")
-	ur, err := c.exploreUnit(ev, "HarnessC03_urls", sym.Config{Params: map[string]int{"schemeEntries": entries}})
+	ur, err := c.exploreUnit(ev, "HarnessC03_urls", sym.Config{Params: map[string]int{"schemeEntries": entries, "maxAttrs": maxAttrs}})
 	if err != nil {
 		return nil, err
 	}
@@ -74,18 +74,46 @@ func runC03(c *Ctx, ev *Evidence) ([]Violation, error) {
 		if seen[sig] || !budget.allow(sig) {
 			return nil, nil
 		}
-		// ground refinement: fix the raw value to a concrete candidate URL with
-		// the facts net/url really yields for it
+		// ground refinement: fix the raw values to concrete candidate URLs with
+		// the facts net/url really yields for them
 		nt := noteTerms(r.Ob)
-		raw := nt["in.v0"]
+		var raws []*smt.Term
+		for i := 0; ; i++ {
+			t, ok := nt[fmt.Sprintf("in.v%d", i)]
+			if !ok {
+				break
+			}
+			raws = append(raws, t)
+		}
 		var r2 UnitResult
 		found := false
-		for ci, cand := range urlCandidates {
-			r2 = solveOb(ur.In, r.Ob, urlCandidateFacts(raw, cand), timeout, grace, fmt.Sprintf("C03-ground-p%d-c%d", r.Ob.PathID, ci))
-			ev.Query(fmt.Sprintf("C03-ground-p%d-c%d", r.Ob.PathID, ci), r2.Res)
-			if r2.Res.Status == smt.Sat {
-				found = true
-				break
+		short := []string{"javascript:alert(1)", "http://a/b", "/p", "http://a/b c", "data:text/html,<x>", "mailto:x@y", " http://a/b ", "x"}
+		try := func(vals []string) bool {
+			var facts []*smt.Term
+			for i, v := range vals {
+				facts = append(facts, urlCandidateFacts(raws[i], v)...)
+			}
+			name := fmt.Sprintf("C03-ground-p%d-%d", r.Ob.PathID, len(facts))
+			r2 = solveOb(ur.In, r.Ob, facts, timeout, grace, name)
+			ev.Query(name, r2.Res)
+			return r2.Res.Status == smt.Sat
+		}
+		if len(raws) == 1 {
+			for _, cand := range urlCandidates {
+				if try([]string{cand}) {
+					found = true
+					break
+				}
+			}
+		} else {
+		outer:
+			for _, c0 := range short {
+				for _, c1 := range short {
+					if try([]string{c0, c1}) {
+						found = true
+						break outer
+					}
+				}
 			}
 		}
 		if !found {
@@ -101,6 +129,90 @@ func runC03(c *Ctx, ev *Evidence) ([]Violation, error) {
 	if err != nil {
 		return nil, err
 	}
+	// several attributes per tag, validURL stubbed: every emitted URL attribute is a validURL result
+	{
+		ma := 2
+		if c.Tier == "thorough" {
+			ma = 3
+		}
+		um, err := c.exploreUnit(ev, "HarnessC03_multi", sym.Config{Stubs: map[string]string{validURLFn: "stubValidURL"}, Params: map[string]int{"maxAttrs": ma}})
+		if err != nil {
+			return nil, err
+		}
+		ev.Bound("multi_attribute_run", fmt.Sprintf("2..%d attributes per tag (URL attribute duplicates and unrelated attributes in any order), all 17 positions, validURL as an arbitrary verdict", ma))
+		cands := []string{"javascript:alert(1)", "http://a/b", "/p"}
+		v3, _, err := c.runUnitObligations(ev, um, "C03m", timeout, grace, func(r UnitResult) (*Violation, error) {
+			pos := int(r.Notes["pos"].I)
+			el, key := urlPositions[pos][0], urlPositions[pos][1]
+			sig := fmt.Sprintf("position=%s[%s] multi-attribute", el, key)
+			if seen[sig] || !budget.allow(sig) {
+				return nil, nil
+			}
+			nt := noteTerms(r.Ob)
+			n := int(r.Notes["in.n"].I)
+			// ground refinement: each URL attribute value is a candidate; the stub's verdict is what the real validURL gives under AllowStandardURLs
+			var idx []int
+			for i := 0; i < n; i++ {
+				idx = append(idx, 0)
+			}
+			for {
+				var facts []*smt.Term
+				for i := 0; i < n; i++ {
+					facts = append(facts, smt.Eq(nt[fmt.Sprintf("in.v%d", i)], smt.StrC(cands[idx[i]])))
+				}
+				for i := 0; ; i++ {
+					raw, ok := nt[fmt.Sprintf("urlstub%d.raw", i)]
+					if !ok {
+						break
+					}
+					var cs []*smt.Term
+					for _, cd := range cands {
+						good := cd != "javascript:alert(1)"
+						cs = append(cs, smt.Implies(smt.Eq(raw, smt.StrC(cd)), smt.And(smt.Eq(nt[fmt.Sprintf("urlstub%d.ok", i)], smt.BoolC(good)), smt.Eq(nt[fmt.Sprintf("urlstub%d.out", i)], smt.StrC(cd)))))
+					}
+					facts = append(facts, cs...)
+				}
+				r2 := solveOb(um.In, r.Ob, facts, timeout, grace, fmt.Sprintf("C03m-ground-p%d", r.Ob.PathID))
+				if r2.Res.Status == smt.Sat {
+					in := attrsFromNotes(r2.Notes, "in")
+					pol := []NativeReq{{"op": "base", "name": "Zero"}, {"op": "flag", "name": "AllowStandardURLs", "val": true}, {"op": "AllowAttrs", "attrs": []string{key, "other"}, "scope": "globally"}}
+					req := NativeReq{"op": "sanitizeAttrs", "policy": pol, "element": el, "attrs": attrsToJSON(in)}
+					nres, nerr := RunNative(c.Repo, c.VerifDir, []NativeReq{req}, "")
+					if nerr != nil {
+						return nil, nerr
+					}
+					got := decodeAttrs(nres[0]["attrs"])
+					for _, o := range got {
+						if o[0] == key && strings.HasPrefix(o[1], "javascript:") {
+							ev.AddReplayed(1)
+							seen[sig] = true
+							return &Violation{Sig: sig, Detail: fmt.Sprintf("<%s> in=%q out=%q under AllowStandardURLs: a javascript: URL survives", el, in, got), Replay: []NativeReq{req}}, nil
+						}
+					}
+				}
+				// next combination
+				k := 0
+				for k < n {
+					idx[k]++
+					if idx[k] < len(cands) {
+						break
+					}
+					idx[k] = 0
+					k++
+				}
+				if k == n {
+					break
+				}
+			}
+			ev.Inconclusive(fmt.Sprintf("C03 multi-attribute counterexample at %s has no replayable instance among the candidate values", sig))
+			return nil, nil
+		})
+		um.In.Close()
+		if err != nil {
+			return nil, err
+		}
+		viols = append(viols, v3...)
+	}
 	budget.report(ev, "C03")
 	if reach["C03-survives"] == 0 || reach["C03-dropped"] == 0 {
 		ev.Inconclusive("vacuity: the harness never keeps or never drops a URL attribute")
@@ -113,7 +225,7 @@ func replayC03(c *Ctx, ev *Evidence, r UnitResult, sig string) (*Violation, erro
 	el, key := urlPositions[pos][0], urlPositions[pos][1]
 	in := attrsFromNotes(r.Notes, "in")
 	want := attrsFromNotes(r.Notes, "out")
-	raw := in[0][1]
+	raw := fmt.Sprint(in)
 	// policy from the model: scheme keys, shapes, custom check tables, scheme pattern
 	var schemes []string
 	for i := 0; ; i++ {
@@ -174,18 +286,41 @@ func replayC03(c *Ctx, ev *Evidence, r UnitResult, sig string) (*Violation, erro
 	}
 	got := decodeAttrs(nres[0]["attrs"])
 	why := ""
-	if len(got) == 1 {
-		t := strings.TrimSpace(raw)
+	accept := func(rawv string) (bool, string, string) {
+		t := strings.TrimSpace(rawv)
 		u, perr := url.Parse(t)
 		switch {
 		case strings.ContainsAny(t, " \t\n") && !strings.HasPrefix(t, "data:"):
-			why = "value with embedded white space survives"
+			return false, "", "value with embedded white space"
 		case perr != nil:
-			why = "unparseable value survives"
+			return false, "", "unparseable value"
 		case u.Scheme != "" && !allowedScheme[u.Scheme]:
-			why = fmt.Sprintf("scheme %q is not on the allowlist %v", u.Scheme, schemes)
+			return false, "", fmt.Sprintf("scheme %q is not on the allowlist %v", u.Scheme, schemes)
 		case u.Scheme == "" && !r.Notes["p.allowRelative"].B:
-			why = "relative URL survives although relative URLs are not allowed"
+			return false, "", "relative URL although relative URLs are not allowed"
+		}
+		return true, u.String(), ""
+	}
+	for _, o := range got {
+		if o[0] != key {
+			continue
+		}
+		ok := false
+		reason := ""
+		for _, a := range in {
+			if a[0] != key {
+				continue
+			}
+			acc, norm, rs := accept(a[1])
+			if acc && (norm == o[1] || choice("p.hasRewriter") == 1 || strings.HasPrefix(strings.TrimSpace(a[1]), "data:")) {
+				ok = true
+			}
+			if !acc && reason == "" {
+				reason = rs
+			}
+		}
+		if !ok {
+			why = fmt.Sprintf("emitted %s=%q does not come from an acceptable input value (%s)", key, o[1], reason)
 		}
 	}
 	ev.Sample(map[string]interface{}{"query": "C03 counterexample", "position": el + "[" + key + "]", "raw": raw, "policy": pol, "model_out": want, "native_out": got, "native_oracle": why})
